@@ -60,6 +60,8 @@ from harness.c10_tree import flm
 from harness.c10_tree import is_linear_object
 from harness.c10_tree import oracle_eval
 from harness.c10_tree import out_dim
+from harness.c10_tree import share_consistent
+from harness.c10_tree import shared_nodes
 from harness.c10_tree import tree_tokens
 from harness.c10_tree import _poly_tok
 from harness.c10_tree import _rl
@@ -127,7 +129,10 @@ def call_time_path(tree: dict, k: int) -> bool:
 def _gen_set(rng, tree: dict, n: int, gens) -> dict | None:
     """A random edit of a public parameter of a random leaf."""
     nodes = walk(tree, n)
-    leaves = [(k, nd, nn) for k, (nd, nn) in enumerate(nodes) if nd["op"] in LEAVES]
+    # a leaf below a shared node is one object at several places of the description: it is not edited (the
+    # description would have to change at every occurrence at once)
+    in_shared = {id(nd) for nd in shared_nodes(tree)}
+    leaves = [(k, nd, nn) for k, (nd, nn) in enumerate(nodes) if nd["op"] in LEAVES and id(nd) not in in_shared]
     if not leaves:
         return None
     # the class of the object first (quadratic and linear functions are the ones with public coefficient
@@ -170,7 +175,7 @@ def _gen_set(rng, tree: dict, n: int, gens) -> dict | None:
             return {"do": "set", "leaf": k, "attr": "b", "how": "number", "val": str(rng.randint(-3, 3))}
         return {"do": "set", "leaf": k, "attr": "b", "how": how, "val": [str(rng.randint(-3, 3)) for _ in range(m)]}
     # user function: both callables are replaced (same output dimension, same calling style)
-    new = gens["poly"](rng, nn, len(nd["polys"]), nd["style"])
+    new = gens["poly"](rng, nn, len(nd["polys"]), "a" if nd["style"] == "w" else nd["style"])
     return {"do": "set", "leaf": k, "attr": "polys", "how": "assign", "val": new["polys"]}
 
 
@@ -208,6 +213,9 @@ def apply_set_to_desc(tree: dict, n: int, st: dict) -> None:
             nd["b"] = list(val)
     elif attr == "polys":
         nd["polys"] = copy.deepcopy(val)
+        if nd.get("style") == "w":  # the new callables compute new arrays (same calling style as an array-valued function)
+            nd["style"] = "a"
+            nd.pop("view", None)
     else:
         raise IllShaped(f"unknown attribute {attr}")
 
@@ -222,7 +230,8 @@ def gen_session_case(rng, gens, max_depth: int = 3) -> dict | None:
     if rng.chance(0.5):
         # quadratic functions are rare leaves of the plain generator: make one of the scalar user functions
         # a quadratic function (same input and output dimensions)
-        cands = [(nd, nn) for nd, nn in walk(tree, n) if nd["op"] == "poly" and len(nd["polys"]) == 1 and nn <= 3]
+        in_shared = {id(nd) for nd in shared_nodes(tree)}
+        cands = [(nd, nn) for nd, nn in walk(tree, n) if nd["op"] == "poly" and len(nd["polys"]) == 1 and nn <= 3 and id(nd) not in in_shared]
         if cands:
             nd, nn = rng.pick(cands)
             q = gens["quad"](rng, nn)
@@ -391,7 +400,7 @@ def _do_set(obj, nd: dict, st: dict, guard, tag: str) -> None:
         else:
             obj.value_at_zero[st["i"]] = fl(val)
     elif attr == "polys":
-        leaf = PolyLeaf({"polys": val, "style": nd["style"]}, tag, guard)
+        leaf = PolyLeaf({"polys": val, "style": "a" if nd["style"] == "w" else nd["style"]}, tag, guard)
         obj.func = leaf.func
         obj.jac = leaf.jac
     else:
@@ -426,7 +435,7 @@ def observe_session(case: dict) -> dict:
             x_expected = x.copy()
         elif d in CALLS:
             try:
-                target = impl.root if not st.get("on") else next(o for nd_, o in impl.objects if nd_ is nodes[st["on"]][0])
+                target = impl.root if not st.get("on") else impl.object_of(nodes[st["on"]][0])
                 if d == "v":
                     out = target.evaluate(x)
                 elif d == "f":
@@ -435,7 +444,12 @@ def observe_session(case: dict) -> dict:
                     out = target.jac(x)
                 rec["got"] = canon_jac(out) if d == "j" else canon_value(out)
                 if isinstance(out, np.ndarray) and out.dtype != object:
-                    held.append((k, d, out, out.copy()))
+                    if np.shares_memory(out, x):
+                        # the function returned (a view of) the caller's own buffer - a user function x -> x[...] called
+                        # directly: the caller changes that array itself when it updates the buffer in place
+                        rec["result_is_callers_buffer"] = True
+                    else:
+                        held.append((k, d, out, out.copy()))
             except Exception as e:  # noqa: BLE001
                 rec["exc"] = common.exc_class(e) + ": " + repr(e)[:160]
             if not np.array_equal(x, x_expected):
@@ -607,7 +621,12 @@ def _valid(case: dict) -> bool:
         return False
     try:
         out_dim(case["tree"], case["n"])
+        if not share_consistent(case["tree"]):
+            return False
         nodes = walk(case["tree"], case["n"])
+        in_shared = {id(nd) for nd in shared_nodes(case["tree"])}
+        if any(s["do"] == "set" and 0 <= s["leaf"] < len(nodes) and id(nodes[s["leaf"]][0]) in in_shared for s in sc):
+            return False
         desc = copy.deepcopy(case["tree"])
         stale = False
         for s in sc:
